@@ -578,6 +578,8 @@ def configs(draw, P=None):
     w = dict(kind="synth", first=first.strftime("%Y-%m-%d"), days=days, tmean=tmean, amp=amp, phase=phase,
              dtr=draw(f1(4.0, 16.0)), et0=draw(f1(1.0, 9.0)), rain_p=rain_p, rain_mm=rain_mm,
              noise=draw(st.integers(0, 10_000)), events=[])
+    if flag(draw, P.get("p_lattice", 0.15)):
+        w["lattice"] = True
     ev = w["events"]
     for _ in range(draw(st.integers(*P["storms"]))):
         # storms mostly inside seasons
